@@ -57,7 +57,7 @@ def configs(tier):
                     if len(I0) > 1:
                         bounds = []     # two initial episodes + reinfection: thorough tier
                 else:
-                    bounds = [(3, 3), (4, 2)] if g == 'P3' else [(3, 2)]
+                    bounds = ([(3, 3)] + ([(4, 2)] if len(I0) == 1 else [])) if g == 'P3' else ([(3, 2)] if len(I0) <= 2 else [])     # (sized to the path cap)
                 for (ep, pt) in bounds:
                     out.append(dict(family='fast', entry='fast_SIS', graph=g, I0=I0, R0=[], weights=w, full=True, tmax='sym',
                                     max_episodes=ep, max_points=pt, tags=['fast', g, 'w:' + w, 'ep%d' % ep]))
@@ -295,7 +295,10 @@ def run_fast(h, cfg):
         if kind == 'asked':
             h.require(name, IMPL(AND(generic, inside), OR(AND(sus_closed(v, p), hit), AND(NOT(hit), NOT(strict_sus(v, p))))),
                       {'contact': [str(u), k, str(v), show(p)], 'target_history': [show(T), S]})
-            h.require('nothing-outside-episode', IMPL(NOT(inside), NOT(hit)), {'contact': [str(u), k, str(v), show(p)]})
+            # (generic position: the point does not coincide with a contact point of ANOTHER episode of the same pair, which could
+            # legitimately infect v at that very instant -- a tie of probability 0 that the solver is otherwise free to choose)
+            no_tie = [NOT(EQ(p, p2)) for (u2, k2, v2, p2, kind2) in contacts if u2 == u and v2 == v and k2 != k and kind2 == 'asked']
+            h.require('nothing-outside-episode', IMPL(AND(NOT(inside), *no_tie), NOT(hit)), {'contact': [str(u), k, str(v), show(p)]})
         else:
             # a contact the implementation never sampled: it must not have been able to change anything
             h.require(name, IMPL(AND(generic, inside), NOT(strict_sus(v, p))), {'contact': [str(u), k, str(v), show(p)], 'target_history': [show(T), S],
